@@ -15,7 +15,8 @@ Ghost (history) fields, never read by the modelled code and never printed:
 Arithmetic: coin amounts are ℕ (sdkmath.Int's 256-bit overflow panic is outside the
 alphabet: amounts stay far below 2^200); `rewardPerShare` is `Sdk.Dec` with the library's
 315-bit range check on `Add`/`MulInt` and the 256-bit check of `TruncateInt`; `Int64()`
-conversions panic beyond 2^63; the unchecked `int64` addition of `AdjustPool` wraps.
+conversions panic beyond 2^63; the unchecked `int64` addition of `AdjustPool` (which wraps for
+start heights near 2^63) is outside the alphabet.
 -/
 import Irismod.Sdk.Map
 import Irismod.Sdk.Bank
@@ -130,9 +131,6 @@ def feeDenom : Denom := "stake"
 def maxI64 : Int := 9223372036854775807
 def pow63 : Nat := 9223372036854775808
 def pow64 : Int := 18446744073709551616
-
-/-- Go's wrapping `int64` addition result -/
-def wrapI64 (x : Int) : Int := (x + 9223372036854775808).emod 18446744073709551616 - 9223372036854775808
 
 /-- `sdk.Coins.AmountOf` on a sorted, duplicate-free list -/
 def amountOf : CoinList → Denom → Nat
@@ -433,18 +431,40 @@ def adjustRules (add rpb : CoinList) (rs : List Rule) : List Rule :=
   rs.map fun r => { r with total := r.total + amountOf add r.denom, remaining := r.remaining + amountOf add r.denom,
                            rpb := if amountOf rpb r.denom > 0 then amountOf rpb r.denom else r.rpb }
 
-/-- the part of `AdjustPool` after `updatePool` and the escrow of the additional reward -/
+/-- the part of `AdjustPool` after `updatePool` and the escrow of the additional reward.
+The Go code adds `startHeight + availableHeight` in `int64` without a check (it wraps for start
+heights near 2^63); that corner is outside the operation alphabet and is a panic here. -/
 def adjustCore (s : State) (id : PoolId) (p1 : Pool) (startHeight : Int) (started : Bool) (add rpb : CoinList) : R :=
   match availableHeight (adjustRules add rpb p1.rules)
           (availableReward started (p1.endH - startHeight).toNat add (adjustRules add [] p1.rules)) with
   | none => .error (.panic "index out of range / Int64 out of bound")
   | some ah =>
-    if wrapI64 (startHeight + (ah : Int)) = p1.endH then
+    if startHeight + (ah : Int) > maxI64 then .error (.panic "outside the alphabet: int64 end height overflow") else
+    if startHeight + (ah : Int) = p1.endH then
       .ok (setPool s id { p1 with rules := adjustRules add rpb p1.rules })
     else
       .ok (enqueue (setPool (dequeue s id p1.endH) id
-              { p1 with rules := adjustRules add rpb p1.rules, endH := wrapI64 (startHeight + (ah : Int)) })
-            id (wrapI64 (startHeight + (ah : Int))))
+              { p1 with rules := adjustRules add rpb p1.rules, endH := startHeight + (ah : Int) })
+            id (startHeight + (ah : Int)))
+
+/-- keeper `AdjustPool` on the stored record `p` (`add`/`rpb`: the message's coin lists, empty = absent) -/
+def adjustPoolAt (s : State) (sender : Addr) (id : PoolId) (p : Pool) (add rpb : CoinList) : R :=
+  if !p.editable then .error (.reject "not editable") else
+  if sender ≠ p.creator then .error (.reject "unauthorized") else
+  if expired s id p then .error (.reject "pool expired") else
+  if rpb.length > p.rules.length ∨ rpb.any (fun c => !(p.rules.any fun r => r.denom = c.1))
+    then .error (.reject "invalid append: rewardPerBlock") else
+  if add.length > (p.rules.filter fun r => r.remaining ≠ 0).length ∨
+     add.any (fun c => !(p.rules.any fun r => r.denom = c.1 ∧ r.remaining ≠ 0))
+    then .error (.reject "invalid append: reward") else
+  match updatePool s id p 0 false with
+  | (_, .error e) => .error e
+  | (s1, .ok p1) =>
+    if add.any (fun c => c.2 = 0) then .error (.reject "invalid coins") else
+    match sendAll s1 sender farmAcc add with
+    | .error e => .error e
+    | .ok s2 =>
+      adjustCore s2 id p1 (if p.start ≤ s.height then s.height else p.start) (decide (p1.start ≤ s.height)) add rpb
 
 def stepAdjustPool (s : State) (sender : Addr) (id : PoolId) (add rpb : Option CoinList) : R :=
   if !(sortedCoins (add.getD []) && sortedCoins (rpb.getD [])) then .error (.reject "outside the alphabet: unsorted coins") else
@@ -454,24 +474,7 @@ def stepAdjustPool (s : State) (sender : Addr) (id : PoolId) (add rpb : Option C
   if add = some [] ∨ rpb = some [] then .error (.reject "empty coins") else
   match getPool s id with
   | none => .error (.reject "pool not found")
-  | some p =>
-    if !p.editable then .error (.reject "not editable") else
-    if sender ≠ p.creator then .error (.reject "unauthorized") else
-    if expired s id p then .error (.reject "pool expired") else
-    if (rpb.getD []).length > p.rules.length ∨ (rpb.getD []).any (fun c => !(p.rules.any fun r => r.denom = c.1))
-      then .error (.reject "invalid append: rewardPerBlock") else
-    if (add.getD []).length > (p.rules.filter fun r => r.remaining ≠ 0).length ∨
-       (add.getD []).any (fun c => !(p.rules.any fun r => r.denom = c.1 ∧ r.remaining ≠ 0))
-      then .error (.reject "invalid append: reward") else
-    match updatePool s id p 0 false with
-    | (_, .error e) => .error e
-    | (s1, .ok p1) =>
-      if (add.getD []).any (fun c => c.2 = 0) then .error (.reject "invalid coins") else
-      match sendAll s1 sender farmAcc (add.getD []) with
-      | .error e => .error e
-      | .ok s2 =>
-        adjustCore s2 id p1 (if p.start ≤ s.height then s.height else p.start) (decide (p1.start ≤ s.height))
-          (add.getD []) (rpb.getD [])
+  | some p => adjustPoolAt s sender id p (add.getD []) (rpb.getD [])
 
 def stepStake (s : State) (sender : Addr) (id : PoolId) (denom : Denom) (amt : Nat) : R :=
   if !(validPoolId id) then .error (.reject "invalid pool id") else
@@ -499,10 +502,41 @@ def stepStake (s : State) (sender : Addr) (id : PoolId) (denom : Denom) (amt : N
               ledger := bookLedger s3.ledger sender id ((getFarmer s sender id).getD { locked := 0, debt := [] }).locked rewards p1.rules,
               resp := rewards }
 
-/-- `Unstake` up to (not including) the payment of the rewards: the state with the principal
-returned and the pool updated, the updated pool, the farmer and the rewards due -/
-def unstakeCore (s : State) (sender : Addr) (id : PoolId) (denom : Denom) (amt : Nat) :
-    Except Err (State × Pool × Farmer × CoinList × CoinList) :=
+/-- the pool leg of `Unstake`: after expiry only the total moves, otherwise `updatePool` -/
+def unstakePool (s : State) (id : PoolId) (p : Pool) (amt : Nat) : State × Except Err Pool :=
+  if expired s id p then (setPool s id { p with locked := p.locked - amt }, .ok { p with locked := p.locked - amt })
+  else updatePool s id p (-(amt : Int)) false
+
+/-- `Unstake` on the stored pool `p` and farmer `f`, up to (not including) the payment of the
+rewards: the state with the principal returned and the pool updated, the updated pool, the
+rewards due and the new debt -/
+def unstakeAt (s : State) (sender : Addr) (id : PoolId) (denom : Denom) (amt : Nat) (p : Pool) (f : Farmer) :
+    Except Err (State × Pool × CoinList × CoinList) :=
+  if f.locked < amt then .error (.reject "unstake more than staked") else
+  if p.locked < amt then .error (.reject "unstake more than pool total") else
+  match unstakePool s id p amt with
+  | (_, .error e) => .error e
+  | (s1, .ok p1) =>
+    match sendAll s1 farmAcc sender (nonzero [(denom, amt)]) with
+    | .error e => .error e
+    | .ok s2 =>
+      match caclRewards p1.rules f (-(amt : Int)) with
+      | none => .error (.panic "negative coin amount / overflow")
+      | some (rewards, debt) => .ok (s2, p1, rewards, debt)
+
+/-- the last leg of `Unstake`: pay the rewards, write the farmer -/
+def unstakeFinish (s2 : State) (sender : Addr) (id : PoolId) (amt : Nat) (f : Farmer) (p1 : Pool)
+    (rewards debt : CoinList) : R :=
+  match payRewards s2 sender rewards with
+  | .error _ => .error (.reject "reward collector: insufficient funds")
+  | .ok s3 =>
+    .ok { s3 with
+      farmers := if f.locked - amt = 0 then AMap.erase s3.farmers (sender, id)
+                 else AMap.set s3.farmers (sender, id) { locked := f.locked - amt, debt := debt },
+      ledger := bookLedger s3.ledger sender id f.locked rewards p1.rules,
+      resp := rewards }
+
+def stepUnstake (s : State) (sender : Addr) (id : PoolId) (denom : Denom) (amt : Nat) : R :=
   if !(validPoolId id) then .error (.reject "invalid pool id") else
   match getPool s id with
   | none => .error (.reject "pool not found")
@@ -511,31 +545,9 @@ def unstakeCore (s : State) (sender : Addr) (id : PoolId) (denom : Denom) (amt :
     match getFarmer s sender id with
     | none => .error (.reject "farmer not found")
     | some f =>
-      if f.locked < amt then .error (.reject "unstake more than staked") else
-      if p.locked < amt then .error (.reject "unstake more than pool total") else
-      match (if expired s id p then (setPool s id { p with locked := p.locked - amt }, Except.ok { p with locked := p.locked - amt })
-             else updatePool s id p (-(amt : Int)) false) with
-      | (_, .error e) => .error e
-      | (s1, .ok p1) =>
-        match sendAll s1 farmAcc sender (nonzero [(denom, amt)]) with
-        | .error e => .error e
-        | .ok s2 =>
-          match caclRewards p1.rules f (-(amt : Int)) with
-          | none => .error (.panic "negative coin amount / overflow")
-          | some (rewards, debt) => .ok (s2, p1, f, rewards, debt)
-
-def stepUnstake (s : State) (sender : Addr) (id : PoolId) (denom : Denom) (amt : Nat) : R :=
-  match unstakeCore s sender id denom amt with
-  | .error e => .error e
-  | .ok (s2, p1, f, rewards, debt) =>
-    match payRewards s2 sender rewards with
-    | .error _ => .error (.reject "reward collector: insufficient funds")
-    | .ok s3 =>
-      .ok { s3 with
-        farmers := if f.locked - amt = 0 then AMap.erase s3.farmers (sender, id)
-                   else AMap.set s3.farmers (sender, id) { locked := f.locked - amt, debt := debt },
-        ledger := bookLedger s3.ledger sender id f.locked rewards p1.rules,
-        resp := rewards }
+      match unstakeAt s sender id denom amt p f with
+      | .error e => .error e
+      | .ok (s2, p1, rewards, debt) => unstakeFinish s2 sender id amt f p1 rewards debt
 
 def stepHarvest (s : State) (sender : Addr) (id : PoolId) : R :=
   if !(validPoolId id) then .error (.reject "invalid pool id") else
